@@ -335,11 +335,12 @@ Fixpoint cti_loop (q : list T) (i : nat) (a : cti_sums) : cti_sums :=
   end.
 Definition cti_last (n : nat) (q : list T) : res (option T) :=
   let a := cti_loop q 0 {| c_sx := s0; c_sy := s0; c_sxx := s0; c_sxy := s0; c_syy := s0 |} in
-  let wl := sofnat n in
+  let wl := sofnat (length q) in       (* the number of values present (not window_len) *)
   let vx := wl *. c_sxx a -. ssq (c_sx a) in
   let vy := wl *. c_syy a -. ssq (c_sy a) in
   if sgtb vx s0 && sgtb vy s0
-  then do r <- ssqrt (vx *. vy); do o <- sdiv (wl *. c_sxy a -. c_sx a *. c_sy a) r; Ok (Some o)
+  then do r <- ssqrt (vx *. vy); do o <- sdiv (wl *. c_sxy a -. c_sx a *. c_sy a) r;
+       Ok (Some (smin (smax o (sneg s1)) s1))      (* out.max(-1).min(1) *)
   else Ok (Some s0).
 Definition cti_step (n : nat) (q : list T) (v : T) : res (list T) :=
   do q' <- (if Nat.leb n (length q) then do '(_, q') <- pop_front q; Ok q' else Ok q);
